@@ -414,6 +414,59 @@ fn scenario(p: &TxwParams, faults: bool, rep: &Report) -> Result<(), String> {
     Ok(())
 }
 
+/// The connect timeout that bounds a waiter's wait can be given per user, per pool or in [general]
+/// (in that order of precedence): a client beyond capacity gets its pool error after the timeout that
+/// applies to its pool, stays usable, and is served once capacity is back.
+fn timeout_levels(seed: u64, rep: &Report) -> Result<(), String> {
+    let mut rng = Rng::new(seed ^ 0x71AE);
+    let level = *rng.pick(&["pool", "user", "general"]);
+    let (mut cell, mut cfg) = simple_cell(&["primary"], 1, "transaction");
+    // the levels that must NOT apply carry values far away from the one that must
+    cfg.gset("connect_timeout", if level == "general" { "300" } else { "9000" });
+    cfg.gset("idle_timeout", "40000");
+    if level == "pool" {
+        cfg.pools[0].set("connect_timeout", "300");
+        cfg.pools[0].set("idle_timeout", "30000");
+    }
+    if level == "user" {
+        cfg.pools[0].set("connect_timeout", "9000");
+        cfg.pools[0].users[0].extra.push("connect_timeout = 300".into());
+    }
+    cell.start_pgcat(&cfg, &StartOpts::default()).map_err(|e| format!("start: {:?}", e))?;
+    let mut holder = Conn::connect(&cell.addr(), &StartupOpts::new(USER, "db", PASS).app("holder")).map_err(|e| e.to_string())?;
+    holder.query(&format!("BEGIN {}", tag("holder", "tl.h1", "")), 5000).map_err(|(m, e)| format!("holder BEGIN: {:?} {}", e, summarize(&m)))?;
+    let mut w = Conn::connect(&cell.addr(), &StartupOpts::new(USER, "db", PASS).app("waiter")).map_err(|e| e.to_string())?;
+    let t0 = now_ns();
+    let r = w.query(&format!("SELECT 1 {}", tag("waiter", "tl.w1", "rows=1")), 7000);
+    let waited_ms = (now_ns() - t0) / 1_000_000;
+    rep.count("timeout_level_scenarios", 1);
+    rep.set_add("connect_timeout_given_at", level);
+    let refused = match &r {
+        Ok(m) => summarize(m).contains("could not get connection from the pool"),
+        Err(_) => false,
+    };
+    if !refused || waited_ms > 4500 {
+        rep.violation(
+            &format!("C04|waiter_not_refused_after_the_connect_timeout_of_its_pool|given_at={}", level),
+            &format!("connect_timeout = 300 ms given at {} level (other levels: 9000 ms): a client beyond capacity waited {} ms and got {}", level, waited_ms, match &r { Ok(m) => summarize(m), Err((m, e)) => format!("{:?} after {}", e, summarize(m)) }),
+            json!({"seed": seed, "level": level}),
+        );
+        return Ok(());
+    }
+    holder.query(&format!("COMMIT {}", tag("holder", "tl.h2", "")), 5000).map_err(|(m, e)| format!("holder COMMIT: {:?} {}", e, summarize(&m)))?;
+    match w.query(&format!("SELECT 1 {}", tag("waiter", "tl.w2", "rows=1")), 7000) {
+        Ok(m) if crate::wire::first_error(&m).is_none() => {}
+        other => rep.violation(
+            &format!("C04|client_unusable_after_pool_error|mode=transaction|given_at={}", level),
+            &format!("after its pool error and the release of the only connection the waiter's next statement got {}", match &other { Ok(m) => summarize(m), Err((m, e)) => format!("{:?} after {}", e, summarize(m)) }),
+            json!({"seed": seed}),
+        ),
+    }
+    holder.terminate();
+    w.terminate();
+    Ok(())
+}
+
 pub fn run(tier: &str) -> i32 {
     let rep = Report::new(
         "C04",
@@ -456,6 +509,7 @@ pub fn run(tier: &str) -> i32 {
                     // the number of distinct named statements the clients prepare
                     cache: if i % 3 == 2 { 3 } else { 0 },
                     same_app: i % 4 == 1,
+                    prewarm_rows: if i % 7 == 3 { 40 } else { 0 },
                 },
                 i % 3 == 1,
             )
@@ -465,6 +519,11 @@ pub fn run(tier: &str) -> i32 {
         rep.eval(1);
         if let Err(e) = scenario(&params[i].0, params[i].1, &rep) {
             rep.inconclusive(&e);
+        }
+        if i % 24 == 5 {
+            if let Err(e) = timeout_levels(params[i].0.seed, &rep) {
+                rep.inconclusive(&e);
+            }
         }
     });
     rep.sample(json!({"scenario": params[0].0.describe(), "faults": params[0].1}));
